@@ -238,6 +238,7 @@ class VolumeMesh(Mesh):
             
             self._adjC2E : dict = None
             self._adjE2C : dict = None
+            self._adjE2F : dict = None
         
         def clear(self):
             super().clear()
